@@ -185,9 +185,10 @@ theorem pc_le (d : Denom) (k : PoolKey) (p : PoolState) : pc d (k, p) ≤ p.left
   simp only [pc]
   split <;> split <;> omega
 
-/-- conditionally creating an absent pool adds at most its two sides -/
+/-- conditionally creating (or replacing) a pool adds at most the two sides of the new pool: whatever the
+    replaced pool held only disappears -/
 theorem poolsTotal_setIf (pools : AList PoolKey PoolState) (c : Bool) (k : PoolKey) (p : PoolState) (d : Denom)
-    (hn : (pools.map (·.1)).Nodup) (hc : c = true → pools.get k = none) :
+    (hn : (pools.map (·.1)).Nodup) :
     ((if c then pools.set k p else pools).map (·.1)).Nodup ∧
     poolsTotal (if c then pools.set k p else pools) d ≤ poolsTotal pools d + (p.lefts + p.rights) := by
   cases c with
@@ -196,7 +197,6 @@ theorem poolsTotal_setIf (pools : AList PoolKey PoolState) (c : Bool) (k : PoolK
     simp only [if_true]
     refine ⟨pools_nodup_set hn k p, ?_⟩
     have h1 := poolsTotal_set hn d k p
-    rw [AList.at?_none (hc rfl)] at h1
     have := pc_le d k p
     omega
 
